@@ -34,7 +34,9 @@ func rcYAML(worldID int, shape int, version int) string {
 		fmt.Fprintf(&b, "  %s:\n    command: %s\n%s", name, yq(sim.FormatCommand(s, "")), extra)
 	}
 	// a restarting, logging process
-	w("rs", sim.Script{Exits: []int{1}, RunMs: []int{1}, Out: []sim.Chunk{{Stream: "o", N: 50}, {Stream: "e", N: 10, When: "x"}}}, "    availability:\n      restart: always\n    environment:\n      - 'P=rs'\n")
+	// (it also logs to a file: the asynchronous file logger is opened, written and closed at every restart)
+	w("rs", sim.Script{Exits: []int{1}, RunMs: []int{1}, Out: []sim.Chunk{{Stream: "o", N: 50}, {Stream: "e", N: 10, When: "x"}}}, "    availability:\n      restart: always\n    environment:\n      - 'P=rs'\n    log_location: "+rcLogFile(worldID)+"\n")
+	w("fl", sim.Script{RunMs: []int{2}, Out: []sim.Chunk{{Stream: "o", N: 30}, {Stream: "o", N: 120, When: "x"}}}, "    log_location: "+rcLogFile(worldID)+".fl\n    availability:\n      restart: always\n      max_restarts: 30\n")
 	// long-running ones
 	w("lr", sim.Script{RunMs: []int{-1}, Out: []sim.Chunk{{Stream: "o", N: 20}}, Tag: fmt.Sprint("v", version)}, "    environment:\n      - 'P=lr'\n")
 	w("sc", sim.Script{RunMs: []int{-1}, Out: []sim.Chunk{{Stream: "o", N: 3}}}, "    environment:\n      - 'P=sc'\n")
@@ -48,6 +50,10 @@ func rcYAML(worldID int, shape int, version int) string {
 		w("nw", sim.Script{RunMs: []int{-1}}, "")
 	}
 	return b.String()
+}
+
+func rcLogFile(worldID int) string {
+	return fmt.Sprintf("%s/rc-%d-%d.log", sim.Scratch, os.Getpid(), worldID)
 }
 
 type nullObserver struct {
@@ -83,6 +89,8 @@ func runRacePair(c fw.Case) fw.Result {
 		return r
 	}
 	defer os.RemoveAll(dir)
+	defer os.Remove(rcLogFile(w.ID))
+	defer os.Remove(rcLogFile(w.ID) + ".fl")
 	env, err := sim.NewEnv(w, rcYAML(w.ID, sp.Shape, 0), sim.EnvOpts{})
 	if err != nil {
 		r.Inconclusive = err.Error()
